@@ -267,7 +267,7 @@ def run(ctx):
         ctx.violation(case, what, tags)
     # negative self-tests: corrupted observations must be rejected
     probe_n = 0x1234567890abcdef1234567890abcdef
-    good = _digits(su._int_to_str(probe_n), su) if hasattr(su, '_int_to_str') else [0] * 22
+    good = (_int_to_digits(probe_n) + [0] * 22)[:22]       # computed here, not by the code under test
     bad1 = {'kind': 'enc', 'limbs': _limbs(probe_n), 'out': [(good[0] + 1) % 57] + good[1:], 'src': 'selftest'}
     bad2 = {'kind': 'dec', 'str': [1] * 22, 'outc': 'ValueError', 'limbs': _limbs(0), 'src': 'selftest'}
     bad3 = {'kind': 'dec', 'str': [1] * 21 + [FOREIGN], 'outc': 'ok', 'limbs': _limbs(5), 'src': 'selftest'}
